@@ -91,6 +91,10 @@ Inductive case :=
 (* a body GET /status answered, with the listing decoded from it (float texts as they stand in the
    body): the model's encoder must write the same bytes *)
 | CRest (rs : list report) (body : bytes)
+(* the longest silence (ms) a viewer of the stats topic saw while messages of some kind kept arriving
+   there, StatsEvery = every: the repaired reporter is silent for less than StatsEvery at the end of
+   every round and a round lasts at most rate limit + StatsEvery; one second of slack for arrival *)
+| CQuiet (every : Z) (max_gap : Z)
 (* a connection that has sent / received [count] messages: the "never" flags its reports showed *)
 | CTraffic (count : N) (never : list bool).
 
@@ -114,6 +118,7 @@ Definition case_ok (c : case) : bool :=
   | CFps raw obs => fnum_eqb (fps_from_ns raw) obs
   | CHist evs obs => multiset_eqb ident_eqb (map ident_of_member (listed (hub_run evs))) obs
   | CRest rs body => option_eqb bytes_eqb (encode_rest rs) (Some body) && json_wf body
+  | CQuiet every max_gap => (max_gap <=? Z.max 1 every + (rate_limit_ms + every) + 1000)%Z
   | CTraffic count never =>
     let f := mk_frames count 0 lex_zero (Finite lex_zero) in
     let model_never := bytes_eqb (rs_last (stats_of_frames fps_from_ns 1 f)) lit_Never in
@@ -135,6 +140,7 @@ Definition case_nontrivial (c : case) : bool :=
   | CRate arrivals _ => Nat.leb 3 (length arrivals)
   | CTraffic count _ => 0 <? count
   | CRest rs _ => Nat.leb 2 (length rs)
+  | CQuiet _ g => (0 <? g)%Z
   end.
 
 Definition mismatches (cs : list case) : list N := mismatch_idx case_ok 0 cs.
